@@ -32,6 +32,11 @@ class Token(AbsVal):
     def __repr__(self):
         return f"<{self.name}>"
 
+    def binop(self, it, op, other, reflected):
+        if self.typ == "str":
+            return Token(f"({self.name} op {other!r})", "str")       # a text built from this one: no longer this one
+        return NotImplemented
+
     def call_method(self, it, name, args, kwargs):
         if name == "__type__":
             return BuiltinType(self.typ)
@@ -44,6 +49,9 @@ class Token(AbsVal):
                         "swapcase", "removeprefix", "removesuffix", "translate", "encode", "format", "zfill", "center", "ljust", "rjust"):
                 # a derived text: no longer the text that was given
                 return Token(f"{self.name}.{name}()", "str")
+            if name in ("splitlines", "split", "rsplit", "partition", "rpartition"):
+                # pieces of the text: none of them is the text
+                return AList([Token(f"{self.name}.{name}()[0]", "str"), Token(f"{self.name}.{name}()[1]", "str")])
         if self.typ == "object" and (name == "__call__" or not name.startswith("__")):
             # a library used directly (added to, merged, ...): a derived value, no longer the one that was given
             return Token(f"{self.name}.{name}(...)")
@@ -110,6 +118,10 @@ class FileObj(AbsVal):
         if name == "write":
             self.log.append(("write", self.name, args[0] if args else None))
             return None
+        if name == "writelines":
+            for piece in it.iterate(args[0]):
+                self.log.append(("write", self.name, piece))
+            return None
         if name in ("__enter__",):
             return self
         if name in ("__exit__", "close", "flush"):
@@ -127,7 +139,8 @@ class Hooks:
         if name == "open":
             f = FileObj(self.log, "opened-file")
             self.log.append(("open", args[0] if args else kwargs.get("file"), args[1] if len(args) > 1 else kwargs.get("mode", "r"),
-                             kwargs.get("encoding", "<default>")))
+                             kwargs.get("encoding", "<default>"),
+                             kwargs.get("errors", args[4] if len(args) > 4 else None)))
             return f
         return NotImplemented
 
@@ -140,9 +153,18 @@ def make_intrinsics(P: Program, log):
             def tr(it, fn, args, kwargs, node, c=c):
                 lib = args[0] if args else kwargs.get("library")
                 inst = fn.self_val
-                flag = inst.attrs.get("_allow_inplace_modification") if isinstance(inst, AObj) else None
+                flag = None
+                if isinstance(inst, AObj):
+                    try:
+                        flag = it.get_attr(inst, "allow_inplace_modification")        # the public property, whatever backs it
+                    except (Raised, Unsupported):
+                        flag = None
+                cfg = {}
+                if isinstance(inst, AObj) and inst.cls.name == "AddEnclosingMiddleware":
+                    from .common import enclosing_behaviour
+                    cfg = enclosing_behaviour(it, P, inst)
                 out = Token(f"{inst.cls.name}({getattr(lib, 'name', lib)})")
-                log.append(("transform", inst.cls.name, lib, out, flag, dict(inst.attrs) if isinstance(inst, AObj) else {}))
+                log.append(("transform", inst.cls.name, lib, out, flag, cfg))
                 return out
             intr[c.methods["transform"].qualname] = tr
     spl = P.cls("splitter", "Splitter")
@@ -312,10 +334,9 @@ def run(P: Program, rep: Report):
     def real_mw(qual):
         """An instance of a shipped middleware class (its transform is summarised by the logging intrinsic)."""
         mod, cname = qual.rsplit(".", 1)
-        o = AObj(P.cls(mod, cname))
-        o.attrs["_allow_inplace_modification"] = True
-        o.attrs["_allow_parallel_execution"] = True
-        return o
+        # built by its own constructor (whatever private state that sets up)
+        from .common import construct_with_defaults
+        return construct_with_defaults(cur_it[0], P.cls(mod, cname), allow_inplace_modification=True)
 
     def ps_args(stack=None, append=None, gen=False, library=None):
         def b(log):
@@ -434,8 +455,8 @@ def run(P: Program, rep: Report):
                 a = e[5]
                 if e[4] is not False:
                     return "default write stack is not built in copy mode (allow_inplace_modification=False)"
-                if a.get("_default_enclosing") != "{" or a.get("_reuse_previous_enclosing") is not False or a.get("_enclose_integers") is not True:
-                    return f"default AddEnclosing is configured {a.get('_default_enclosing')!r}/reuse={a.get('_reuse_previous_enclosing')}/ints={a.get('_enclose_integers')}"
+                if a.get("default") != "{" or a.get("reuse") is not False or a.get("ints") is not True:
+                    return f"default AddEnclosing behaves like default_enclosing={a.get('default')!r}, reuse_previous_enclosing={a.get('reuse')}, enclose_integers={a.get('ints')} ({a.get('error') or a.get('observed')})"
             return None
         return j
     scenario("write_string", ws_args(), "default", "C20.R2", judge_write(DEF_UNPARSE, True))
@@ -470,6 +491,9 @@ def run(P: Program, rep: Report):
             return f"parse_file opens the file with encoding {op[0][3]!r} instead of the given encoding"
         if op[0][2] not in ("r", "rt"):
             return f"parse_file opens the file in mode {op[0][2]!r}"
+        if len(op[0]) > 4 and op[0][4] not in (None, "strict"):
+            return (f"parse_file opens the file with errors={op[0][4]!r}: bytes that are not valid in the encoding are replaced / dropped, the text parsed is "
+                    f"then not the file's decoded content (a wrong encoding must fail, not yield a library)")
         sp = [e for e in log if e[0] == "splitter"]
         if len(sp) != 1 or getattr(sp[0][1], "name", None) != "file-text":
             return "the text parsed is not the text read from the file"
